@@ -449,6 +449,9 @@ def cli_inprocess(argv):
                 rc = nunavut.cli.main()
             except SystemExit as e:
                 rc = e.code
+            except Exception as e:  # what the user would see as a traceback and exit status 1
+                rc = 1
+                err.write("%s: %s" % (type(e).__name__, e))
     finally:
         sys.argv = old
         logging.getLogger().setLevel(lvl)
@@ -573,7 +576,7 @@ def run_cli(stim, scratch, rid):
         subprocess.run(["rm", "-rf", str(work)])
 
 
-PROBE_TEMPLATE = "{% for k, v in options.items() %}{{ k }}\t{{ v }}\n{% endfor %}"
+PROBE_TEMPLATE = "{% for k, v in options.items() %}{{ k }}\t[{{ v }}]\n{% endfor %}"  # brackets: line post-processors trim
 
 
 def probe_options(run, args, work, DV):
@@ -593,8 +596,9 @@ def probe_options(run, args, work, DV):
         raise MachineryFailure("probe template produced %d files" % len(fs))
     m = {}
     for ln in fs[0].read_text().splitlines():
-        if "\t" in ln:
+        if "\t" in ln and ln.endswith("]"):
             k, v = ln.split("\t", 1)
+            v = v[1:-1]
             mm = re.match(r"^DefaultValue\((.*)\)$", v)
             m[k] = ("d", "str:" + json.dumps(mm.group(1))) if mm else ("x", "str:" + json.dumps(v))
     subprocess.run(["rm", "-rf", str(out)])
@@ -1051,6 +1055,12 @@ def replay_model_cases(ctx, cases, plan, label):
 def run(ctx):
     u, nl = _nn()
     rng = ctx.rng
+    phases = ctx.cov.setdefault("phase_s", {})
+    t_ph = [time.time()]
+
+    def phase(name):
+        phases[name] = round(time.time() - t_ph[0], 1)
+        t_ph[0] = time.time()
     # ---- 1. the bounded design ------------------------------------------------------------------------------------------
     # fold: built-in x document x override, every shape of depth <= 3, with/without anchors; invariants + case emission in one run
     fold_cfg, fold_desc = ctx.pick(("ConfigMerge", "UFoldQ: 8 built-in x 36 file x 117 override shapes"),
@@ -1061,14 +1071,14 @@ def run(ctx):
         raise MachineryFailure("too few cases emitted: %d" % len(cases))
     # dict iteration order must not matter (python dicts iterate in insertion order, which the caller controls)
     sliced(ctx, "ConfigMerge_order", 16, "ConfigMerge fold, any key order",
-           "CopyMode=rebuild Mode=fold UOrder AnyOrder=TRUE")
+           "CopyMode=rebuild Mode=fold UOrder (3 x 36 x 117 shapes) AnyOrder=TRUE")
     if not ctx.quick:
+        sliced(ctx, "ConfigMerge_fold4", 16, "ConfigMerge fold, two files", "CopyMode=rebuild Mode=fold UFold4: 8 x 36 x 36 x 117", xmx="4g")
         sliced(ctx, "ConfigMerge_fold3d", 16, "ConfigMerge fold, API document with default markers in the middle",
                "CopyMode=rebuild Mode=fold UFold3D: 8 x 117 x 117")
     # histories: two builders sharing documents, create/update interleaved
-    sliced(ctx, "ConfigMerge_hist", 13, "ConfigMerge histories",
-           "CopyMode=rebuild Mode=hist NB=2 MaxOps=%d UHist (3 x 13 x 13 shapes)" % ctx.pick(5, 6),
-           subst={"MaxOps = 5": "MaxOps = %d" % ctx.pick(5, 6)}, timeout=3400)
+    hcfg, hn, hdesc = ctx.pick(("ConfigMerge_histq", 7, "MaxOps=5 UHistQ (3 x 7 x 7 shapes)"), ("ConfigMerge_hist", 13, "MaxOps=6 UHist (3 x 13 x 13 shapes)"))
+    sliced(ctx, hcfg, hn, "ConfigMerge histories", "CopyMode=rebuild Mode=hist NB=2 " + hdesc, timeout=3400)
     # negative controls of the model: the original shallow copy and the insufficient deepcopy repair must be refuted
     neg = []
     for mode, inv, cfg in (("shallow", "DocsUnmodified", "ConfigMerge_neg"), ("deepcopy", "Refines", "ConfigMerge_neg"),
@@ -1080,10 +1090,11 @@ def run(ctx):
                       expect_violation=inv)
         neg.append("CopyMode=%s refuted by invariant %s after %d states" % (mode, inv, a.distinct))
     ctx.cov["model_negative_control"] = neg
+    phase("model checking")
 
     # ---- 2. spec -> code ----------------------------------------------------------------------------------------------
     # (level, via, lang, embed, every, offset)
-    plan = [("du", "api", "c", "top", 1, 0), ("lc", "api", "c", "top", 3, 0), ("lc", "file", "c", "top", 3, 1),
+    plan = [("du", "api", "c", "top", 1, 0), ("lc", "api", "c", "top", ctx.pick(7, 3), 0), ("lc", "file", "c", "top", ctx.pick(7, 3), 1),
             ("lb", "api", "c", "top", ctx.pick(97, 23), 0), ("lb", "file", "c", "top", ctx.pick(97, 23), 5),
             ("lb", "api", "c", "opt", ctx.pick(197, 41), 7), ("lb", "api", "cpp", "opt", ctx.pick(397, 83), 11)]
     stims, results, suspects = replay_model_cases(ctx, cases, plan, "fold")
@@ -1099,6 +1110,7 @@ def run(ctx):
     hplan = [("du", "api", "c", "top", 1, 0), ("lc", "file", "c", "top", 2, 0), ("lb", "api", "c", "top", ctx.pick(5, 3), 0),
              ("lb", "file", "c", "top", ctx.pick(5, 3), 1), ("lb", "api", "c", "opt", ctx.pick(7, 4), 2)]
     replay_model_cases(ctx, hcases, hplan, "hist")
+    phase("spec->code")
 
     # ---- 3. code -> spec ----------------------------------------------------------------------------------------------
     g = Gen(rng)
@@ -1137,8 +1149,10 @@ def run(ctx):
                   "survives the group is not asserted (Any)")
     ctx.ambiguous("an explicit scalar met by a later map that consists of default-marked values only: not asserted (Any)")
 
+    phase("code->spec")
     # ---- 4. binding self-tests ------------------------------------------------------------------------------------------
     selftests(ctx, g)
+    phase("self-tests")
 
     ctx.cov["rule"] = ("spec->code: every terminal state of the fold model (all shapes of depth<=3 x sharing) through deep_update, and "
                        "every 3rd/97th.. through LanguageConfig / LanguageContextBuilder (YAML files with anchors or dict API), simulated "
@@ -1198,10 +1212,15 @@ def selftests(ctx, g):
           "ops": [["new", 1, 0], ["set", 1, "options", 1], ["create", 1], ["obs"]], "keys": ["options"]}
     r2 = run_stim(s2, ctx.scratch, 0)
 
-    def m_marker(rec):
+    def m_marker(rec):   # the created configuration shows the default-marked False of the override instead of the file's True
         st = [x for x in rec["steps"] if x["op"] == "create"][0]
         f = rec["docs"][1]["e"][0][1]["v"]
-        st["cfg"][0][1]["e"][0][1]["e"][0][1]["v"] = f
+        shown = copy.deepcopy([x for x in rec["steps"] if x["cfg"]][-1]["cfg"][0][1])
+        node = shown
+        while node["k"] == "m":
+            node = node["e"][0][1]
+        node["v"] = f
+        st["cfg"] = [[1, shown]]
     rec = copy.deepcopy(r2["record"])
     m_marker(rec)
     got = tlc.validate_traces(ctx, "ConfigMergeTrace", [rec]).get(0, "")
